@@ -1,12 +1,14 @@
 //go:build verif
 
-package simot
+package simot_test
 
-// C16 (ot/simot part): in 1-out-of-2 oblivious transfer of two equal-length
-// messages the receiver obtains exactly the chosen message and cannot decrypt
-// the other one with the key it derives. In-package: the derived keys are
-// unexported fields. simot draws its randomness from crypto/rand itself; the
-// oracle does not depend on it.
+// C16 (ot/simot part), exported API only (this file and the histories file name no
+// unexported identifier): in 1-out-of-2 oblivious transfer of two equal-length
+// messages the receiver obtains exactly the chosen message; asking the same
+// receiver state for the other ciphertext fails; a tampered ciphertext is refused.
+// The part that needs the receiver's derived key lives in
+// zz_verif_c16_simot_keys_test.go (in-package). simot draws its randomness from
+// crypto/rand itself; the oracle does not depend on it.
 
 import (
 	"bytes"
@@ -15,6 +17,7 @@ import (
 
 	"github.com/cloudflare/circl/internal/verifc16"
 	"github.com/cloudflare/circl/internal/verifmc"
+	"github.com/cloudflare/circl/ot/simot"
 )
 
 func c16Contents(n int) [][]byte {
@@ -25,8 +28,8 @@ func TestVerifC16_simot(t *testing.T) {
 	r := verifmc.Start(t, "C16", "simot")
 	defer r.Finish()
 	r.Rule("full product group in {ristretto255,P-256,P-384,P-521} x choice in {0,1} x length in {0,1,15,16,17,32} x (m0,m1) in {00..,FF..,Msg}^2 (equal lengths; pairs with m0 = m1 included); " +
-		"oracles: Round3 succeeds and returns exactly m_choice; the receiver's key equals the sender's k_choice and differs from k_(1-choice); decrypting e_(1-choice) with the receiver's key fails " +
-		"(directly and through Round3Receiver with the other selector); ciphertext lengths are 12+len+16; three single-bit flips of e_choice are refused; non-trivial = distinct (group, choice, m0, m1)")
+		"oracles (exported API): Round3Receiver succeeds and Returnmc is exactly m_choice; a copy of the receiver's state asked for the other ciphertext (Round3Receiver with the other selector) fails and releases nothing; " +
+		"ciphertext lengths are 12+len+16; three single-bit flips of e_choice are refused; non-trivial = distinct (group, choice, m0, m1)")
 	groups := verifc16.Groups()
 	lens := []int{0, 1, 15, 16, 17, 32}
 	type job struct{ gi, choice, li, i0, i1 int }
@@ -54,8 +57,8 @@ func TestVerifC16_simot(t *testing.T) {
 		fail := func(class, what string) {
 			col.Add("C16|simot|"+class+"|"+fmt.Sprintf("choice=%d", j.choice), id, id+": "+what, rp)
 		}
-		var sender Sender
-		var receiver Receiver
+		var sender simot.Sender
+		var receiver simot.Receiver
 		var e0, e1 []byte
 		if p, what := verifmc.Try(func() {
 			A := sender.InitSender(g.G, m0, m1, 0)
@@ -67,16 +70,12 @@ func TestVerifC16_simot(t *testing.T) {
 		}
 		r.Eval(1)
 		r.Distinct(g.Name, j.choice, m0, []byte{0xfe}, m1)
-		es := [2][]byte{e0, e1}
 		if len(e0) != 12+n+16 || len(e1) != 12+n+16 {
 			fail("ciphertext-length", fmt.Sprintf("len(e0)=%d len(e1)=%d for %d-byte messages", len(e0), len(e1), n))
 		}
-		// a second receiver in the same state, for the attempt to open the other message
+		// copies of the receiver's state (before round 3): one for the attempt to open the other message, one per tampering
 		other := receiver
-		other.kR = make([]byte, keyLength)
-		other.mc = nil
 		tamper := receiver
-		tamper.kR = make([]byte, keyLength)
 		var err error
 		if p, what := verifmc.Try(func() { err = receiver.Round3Receiver(e0, e1, j.choice) }); p {
 			fail("panic:"+verifmc.PanicClass(what), what)
@@ -91,22 +90,6 @@ func TestVerifC16_simot(t *testing.T) {
 			return
 		}
 		r.Count("chosen_message_obtained", 1)
-		ks := [2][]byte{sender.k0, sender.k1}
-		if !bytes.Equal(receiver.kR, ks[j.choice]) {
-			fail("receiver-key-differs-from-k_choice", fmt.Sprintf("kR=%x k_choice=%x", receiver.kR, ks[j.choice]))
-		}
-		if bytes.Equal(receiver.kR, ks[1-j.choice]) || bytes.Equal(sender.k0, sender.k1) {
-			fail("receiver-key-equals-other-key", fmt.Sprintf("kR=%x k0=%x k1=%x", receiver.kR, sender.k0, sender.k1))
-		}
-		if pt, err := aesDecGCM(receiver.kR, es[1-j.choice]); err == nil {
-			fail("other-message-decrypts", fmt.Sprintf("e_(1-choice) opens under the receiver's key to %x", pt))
-		} else {
-			r.Count("other_message_refused", 1)
-		}
-		if pt, err := aesDecGCM(receiver.kR, es[j.choice]); err != nil || !bytes.Equal(pt, ms[j.choice]) {
-			fail("chosen-ciphertext-does-not-open-under-receiver-key", fmt.Sprintf("err=%v pt=%x", err, pt))
-		}
-		// the same through the public entry point: select the other ciphertext
 		if p, what := verifmc.Try(func() { err = other.Round3Receiver(e0, e1, 1-j.choice) }); p {
 			fail("panic:"+verifmc.PanicClass(what), what)
 		} else if err == nil {
@@ -117,10 +100,8 @@ func TestVerifC16_simot(t *testing.T) {
 			r.Count("other_selector_refused", 1)
 		}
 		r.Eval(2)
-		// tampering with the chosen ciphertext (nonce, body or tag bit)
 		if g.Level(r.Thorough()) >= 1 || (j.i0 == 2 && j.i1 == 0) {
-			bits := []int{0, 12 * 8, (len(e0) - 1) * 8}
-			for _, b := range bits {
+			for _, b := range []int{0, 12 * 8, (len(e0) - 1) * 8} {
 				t0, t1 := append([]byte{}, e0...), append([]byte{}, e1...)
 				if j.choice == 0 {
 					t0 = verifmc.Flip(t0, b)
@@ -128,7 +109,6 @@ func TestVerifC16_simot(t *testing.T) {
 					t1 = verifmc.Flip(t1, b)
 				}
 				tr := tamper
-				tr.kR = make([]byte, keyLength)
 				if p, _ := verifmc.Try(func() { err = tr.Round3Receiver(t0, t1, j.choice) }); !p && err == nil {
 					fail("tampered-ciphertext-accepted", fmt.Sprintf("bit %d of e_choice flipped, Round3Receiver returned %x", b, tr.Returnmc()))
 				} else {
@@ -138,7 +118,7 @@ func TestVerifC16_simot(t *testing.T) {
 			}
 		}
 		if ji == 100 {
-			r.Sample(map[string]interface{}{"case": id, "e0": verifc16.Hx(e0), "e1": verifc16.Hx(e1), "kR": verifc16.Hx(receiver.kR)})
+			r.Sample(map[string]interface{}{"case": id, "e0": verifc16.Hx(e0), "e1": verifc16.Hx(e1)})
 		}
 	})
 	col.Flush(r)
@@ -146,6 +126,5 @@ func TestVerifC16_simot(t *testing.T) {
 		r.Set("note", "bit-flip tampering on P-521 only for one message pair per (choice, length) in the quick tier")
 	}
 	r.RequireCounter("chosen_message_obtained", int64(len(jobs)))
-	r.RequireCounter("other_message_refused", int64(len(jobs)))
 	r.RequireCounter("other_selector_refused", int64(len(jobs)))
 }
